@@ -45,6 +45,7 @@ def check_flag(cx, chk):
     writers = [(p, i, k, e) for (p, i, k, e) in acc if k in ("write", "init")]
     readers = sorted({short(p) for (p, i, k, e) in acc if k == "read" and "fmt::Debug" not in p})
     rule_gen = None
+    done_writers = set()
     for (p, i, k, e) in writers:
         sp = short(p)
         if sp == "Default::default":
@@ -55,48 +56,70 @@ def check_flag(cx, chk):
         elif sp == "Clone::clone":
             continue
         else:
-            # must be the per-rule derivation
+            # must be the per-rule derivation: decided on the semantic summary of the writing function - every settings value it
+            # hands on has skip_whitespace == (incoming skip_whitespace && !flags.no_skip_ws), over the four assignments
+            if p in done_writers:
+                continue
+            done_writers.add(p)
+            from .. import sem
+            from . import semspec
             b = cx.body(cg, p)
-            # find the aggregate statement
-            val_local = None
-            for st in b.blocks[i]["stmts"]:
-                if st["k"] == "assign" and st["rv"]["k"] == "agg" and st["rv"].get("adt", "").endswith("CodegenSettings"):
-                    idx = st["rv"]["fields"].index("skip_whitespace")
-                    op = st["rv"]["ops"][idx]
-                    if op["k"] in ("move", "copy") and not op["place"]["p"]:
-                        val_local = op["place"]["l"]
+            own = [k for k in range(1, b.arg_count + 1) if is_settings_ty(b.ty(k))]
             good = False
             detail = None
-            if val_local is not None:
-                rows = finite.phi_table(b, val_local, i)
-                # leaves: the settings flag of the function's own settings parameter and the rule's no_skip_ws flag
-                leaves = set()
-                for (atoms, v, _) in rows:
-                    for (a, val) in atoms:
-                        if a[0] == "field" and a[2] in ("skip_whitespace", "no_skip_ws"):
-                            leaves.add(a)
-                    if v is not None:
-                        for s_ in walk(v):
-                            if s_[0] == "field" and s_[2] in ("skip_whitespace", "no_skip_ws"):
-                                leaves.add(s_)
-                sw = [l for l in leaves if l[2] == "skip_whitespace"]
-                ns = [l for l in leaves if l[2] == "no_skip_ws"]
-                if len(sw) == 1 and len(ns) == 1 and sw[0][1][0] == "param" and is_call(ns[0][1], "flags"):
-                    try:
-                        tab = finite.bool_function(rows, [sw[0], ns[0]])
-                        want = {(s, n): (s and not n) for s in (False, True) for n in (False, True)}
-                        detail = {str(k): v for k, v in tab.items()}
-                        good = tab == want
-                    except ValueError as ex:
-                        detail = str(ex)
+            try:
+                sm = sem.Sem(cx, cg, max_leaves=4000).summarize(p)
+            except sem.SemLimit as ex:
+                sm = None
+                detail = str(ex)
+            if sm is not None and own:
+                PS = mir.mk("param", own[0])
+                SW = mir.mk("field", PS, "skip_whitespace")
+                ns_atoms = {a_ for l in sm.leaves for (a_, v_) in l.assume if a_[0] == "field" and a_[2] == "no_skip_ws"}
+                ns_vals = {s_ for l in sm.leaves for ev in l.trace for s_ in walk(ev[0]) if s_[0] == "field" and s_[2] == "no_skip_ws"}
+                NSs = list(ns_atoms | ns_vals)
+                table = {}
+                handovers = 0
+                probs = []
+
+                def is_settings_value(v):
+                    x = v
+                    while x[0] == "upd":
+                        x = x[1]
+                    return x == PS or (x[0] == "agg" and x[1].endswith("CodegenSettings")) or (v[0] == "agg" and v[1].endswith("CodegenSettings"))
+                if len(NSs) == 1 and is_call(NSs[0][1], "flags"):
+                    NS = NSs[0]
+                    for sw in (False, True):
+                        for ns in (False, True):
+                            env = {SW: sw, NS: ns}
+                            ls, unknown = semspec.select_leaves([l for l in sm.leaves if l.kind == "return"], env)
+                            vals = set()
+                            for l in ls:
+                                for ev in l.trace:
+                                    t = ev[0]
+                                    if t[0] != "call" or last(t[1]) in ("clone", "fmt", "flags"):
+                                        continue
+                                    for a_ in t[2]:
+                                        if isinstance(a_, tuple) and a_ and is_settings_value(a_):
+                                            handovers += 1
+                                            fv = sem.get_field(a_, "skip_whitespace")
+                                            r = semspec.eval_term(fv, env)
+                                            vals.add(r)
+                                            if r != (sw and not ns):
+                                                probs.append("%s receives skip_whitespace=%s when incoming=%s, no_skip_ws=%s" % (short(t[1]), r, sw, ns))
+                            table[(sw, ns)] = sorted(map(str, vals))
+                    detail = {str(k): v for k, v in table.items()}
+                    good = handovers > 0 and not probs
+                    if probs:
+                        detail = sorted(set(probs))[:3]
                 else:
-                    detail = "leaves: %s" % [mir.show(l) for l in leaves]
+                    detail = "no_skip_ws reads: %s" % [mir.show(x) for x in NSs]
             if good:
                 rule_gen = p
                 chk.ok("C08.flag", "per-rule derivation", {"writer": short(p), "truth_table(sw,no_skip)": detail})
             else:
                 chk.violation("C08.flag", "writer %s" % short(p),
-                              "skip_whitespace is written by %s and the value is not `settings.skip_whitespace && !flags.no_skip_ws` "
+                              "skip_whitespace is written by %s and the settings it hands on do not carry `settings.skip_whitespace && !flags.no_skip_ws` "
                               "(decided over the 4 assignments): %s" % (short(p), detail), cx.site(cx.body(cg, p), i))
     if rule_gen is None:
         chk.anchor_missing("C08.flag", "per-rule derivation of skip_whitespace")
@@ -138,13 +161,8 @@ def check_thread(cx, chk, rule_gen):
                 if callee in ("Clone::clone",) or last(t["func"]["path"]) in ("clone", "fmt"):
                     continue
                 if root_path == rule_gen:
-                    # must pass the value built here (an aggregate CodegenSettings), except to check/clone
-                    built = root[0] == "agg" and root[1].endswith("CodegenSettings")
-                    if built:
-                        chk.ok("C08.thread", tag, {"fn": short(p), "callee": callee, "passes": "per-rule settings"})
-                    else:
-                        chk.violation("C08.thread", tag, "the rule generator passes %s instead of the per-rule settings it derived: "
-                                      "the callee would ignore @no_skip_ws" % mir.show(root), cx.site(b, i))
+                    # every settings value the rule generator hands on is evaluated by C08.flag (truth table over the summary)
+                    chk.ok("C08.thread", tag, {"fn": short(p), "callee": callee, "passes": "per-rule settings (C08.flag)"})
                 elif root[0] == "param" and root[1] in own and xb.path == root_path:
                     chk.ok("C08.thread", tag, {"fn": short(p), "callee": callee, "passes": "own parameter"})
                 else:
